@@ -46,7 +46,7 @@ impl Check for C07 {
     }
     fn rule(&self, tier: Tier) -> String {
         format!(
-            "{} || server seam: real Server, application threads with programs over {{recv, recv_timeout(T), try_recv, incoming_requests().next()}} (every single program and pair{}), connections {} with pipelined requests, {} unblock calls, receivers blocked first or racing; {} scenarios, strict bound {}; same oracles read through Server::verif_queue_snapshot (hook H5)",
+            "{} || server seam: real Server, application threads with programs over {{recv, recv_timeout(T), try_recv, incoming_requests().next() on a fresh iterator, next() on one iterator kept across calls}} (every single program and pair{}), connections {} with pipelined requests, {} unblock calls, receivers blocked first or racing; {} scenarios, strict bound {}; same oracles read through Server::verif_queue_snapshot (hook H5)",
             rule_text("C07", tier, scen(tier).len()),
             if tier == Tier::Thorough { " and one triple" } else { "" },
             if "C07" == "C07" { "[1] [2] [1,1] [2,1]" } else { "[] [1] [1,1]" },
